@@ -158,10 +158,12 @@ func genC12(ctx *fw.Ctx) []fw.Case {
 	rng.Shuffle(len(base), func(i, j int) { base[i], base[j] = base[j], base[i] })
 	// the module-level atoms (use-list orders, comdats, aliases, ifuncs, attribute
 	// groups, unnamed globals: every kind of top-level entity the translator keeps
-	// an index or a work list for) are always in; the rest is a PRNG sample
+	// an index or a work list for) and the atoms about named types (they are the
+	// inputs that may touch shared type and constant objects) are always in; the
+	// rest is a PRNG sample
 	var always, rest []corpus.Source
 	for _, b := range base {
-		if strings.HasPrefix(b.ID, "atom/module/") || strings.HasPrefix(b.ID, "atom/global/") || strings.HasPrefix(b.ID, "atom/md/tuples") || strings.HasPrefix(b.ID, "atom/types/alias") {
+		if strings.HasPrefix(b.ID, "atom/module/") || strings.HasPrefix(b.ID, "atom/global/") || strings.HasPrefix(b.ID, "atom/md/tuples") || strings.HasPrefix(b.ID, "atom/types/") {
 			always = append(always, b)
 		} else {
 			rest = append(rest, b)
